@@ -15,6 +15,10 @@ NA = {
 PENDING = "static check designed in DESIGN.md section 3 but not built yet; not claimed until it exists"
 
 CHECKS = {
+ "C20": dict(level="other", technique="byte-granular definedness dataflow over object code (GPRs, 512-bit vector registers with opmask tags, flags, own-frame stack slots) with context-sensitive analysis of private kernels, known-bits / interval branch pruning; IR rules for message restart and init coverage",
+   text="PARTIAL. Decided for 775 functions / ~535k instructions of the real build: starting from 'only the interface's argument registers, rsp and callee-saved registers are defined', no undefined register, flag, opmask or unwritten own-frame stack byte reaches any of ~168k sinks (address computations, stores to non-stack memory, flag consumers, call arguments); byte-exact transfer for moves, shuffles, inserts, aligns, broadcasts and masked loads/stores, lane-wise for arithmetic, all-or-nothing otherwise; 24 private-convention kernels are analysed in the context of each call site. IR: under FIRST every _ctx_mgr_submit resets total_length / partial_block_buffer_length / digest before reading them; mh_* init functions zero the whole context first. 52 reports on two families of paths confirmed infeasible by reading (GCM 8-block loop entry, CBC last-block test) are listed one by one in tables/c20_infeasible.json. NOT decided: dependence on lane-indexed manager memory of idle lanes and on output-buffer prefill.",
+   note="Path-insensitive across joins (hence the table); memory reached through arguments is treated as API-defined. Trusted: MC operand tables; arity of assembly interfaces = argument count at their C call sites.",
+   ref="3/C20"),
  "C06": dict(level="other", technique="IR path enumeration with position-aware phi resolution over the ctx layer (typestate of the handed-back context), CFG gating analysis and store-provenance classification in the assembly managers",
    text="PARTIAL. Decided: (R06.1) every non-NULL context returned by each of the 23 <algo>_ctx_mgr_resubmit functions had a status without the PROCESSING bit stored into it as the last action, with no manager call in between; (R06.2) COMPLETE is stored only under (status & COMPLETE), PROCESSING|COMPLETE only under (status & LAST) and followed by the submit of the padding job; (R06.3) each SIMD _ctx_mgr_flush returns NULL only on the edge 'manager flush returned NULL' and otherwise resubmit's checked non-NULL result, and each of the 23 assembly flush managers reaches its NULL return only through branches on the manager's occupancy fields, storing nothing to the manager on the way; (R06.4) nothing in the library stores to user_data and every store in the manager assembly goes to its stack, its arguments or a job pointer from the lane table, never through a data pointer. NOT decided: exactly-once hand-back and lane-count bounds (lane-stack encodings and data-dependent lane indices in assembly).",
    note="Structural necessary conditions of the job life-cycle at the ctx layer. Every store of the manager assembly has a known provenance (the *_opt_x1 kernels are summarised per call-site context).",
